@@ -74,67 +74,107 @@ fn f_t(r: &Result<Array<Tuple3<String, String, String>>, ArrayError>) -> String 
 
 // ------------------------------------------------------------------ exec
 
-fn exec(op: &str, args: &[&str], expected: &str) -> Option<Verdict> {
-    let a = p_sarr(args.first()?)?;
-    let two = |f: &dyn Fn(&Array<String>, &Array<String>) -> String| -> Option<String> { let b = p_sarr(args.get(1)?)?; Some(guarded(|| f(&a, &b))) };
-    let observed = match op {
-        "add" => two(&|a, b| f_s(&ArrayStringManipulate::add(a, b)))?,
-        "join" => two(&|a, b| f_s(&ArrayStringManipulate::join(a, b)))?,
-        "partition" => two(&|a, b| f_t(&ArrayStringManipulate::partition(a, b)))?,
-        "rpartition" => two(&|a, b| f_t(&ArrayStringManipulate::rpartition(a, b)))?,
-        "equal" => two(&|a, b| f_b(&ArrayStringCompare::equal(a, b)))?,
-        "not_equal" => two(&|a, b| f_b(&ArrayStringCompare::not_equal(a, b)))?,
-        "greater_equal" => two(&|a, b| f_b(&ArrayStringCompare::greater_equal(a, b)))?,
-        "less_equal" => two(&|a, b| f_b(&ArrayStringCompare::less_equal(a, b)))?,
-        "greater" => two(&|a, b| f_b(&ArrayStringCompare::greater(a, b)))?,
-        "less" => two(&|a, b| f_b(&ArrayStringCompare::less(a, b)))?,
-        "count" => two(&|a, b| f_n(&ArrayStringIndexing::count(a, b)))?,
-        "starts_with" => two(&|a, b| f_b(&ArrayStringIndexing::starts_with(a, b)))?,
-        "ends_with" => two(&|a, b| f_b(&ArrayStringIndexing::ends_with(a, b)))?,
-        "find" => two(&|a, b| f_i(&ArrayStringIndexing::find(a, b)))?,
-        "rfind" => two(&|a, b| f_i(&ArrayStringIndexing::rfind(a, b)))?,
-        "index" => two(&|a, b| f_i(&ArrayStringIndexing::index(a, b)))?,
-        "rindex" => two(&|a, b| f_i(&ArrayStringIndexing::rindex(a, b)))?,
-        "compare" => { let b = p_sarr(args.get(1)?)?; let o = unhex(args.get(2)?)?; guarded(|| f_b(&ArrayStringCompare::compare(&a, &b, o.as_str()))) }
-        "multiply" => { let n = p_narr(args.get(1)?)?; guarded(|| f_s(&ArrayStringManipulate::multiply(&a, &n))) }
-        "capitalize" => guarded(|| f_s(&ArrayStringManipulate::capitalize(&a))),
-        "lower" => guarded(|| f_s(&ArrayStringManipulate::lower(&a))),
-        "upper" => guarded(|| f_s(&ArrayStringManipulate::upper(&a))),
-        "swapcase" => guarded(|| f_s(&ArrayStringManipulate::swapcase(&a))),
+/// everything a string array can be asked — implemented by the crate for `Array<String>` AND for
+/// `Result<Array<String>, ArrayError>` (the chained form); `run` is generic, so both receivers execute the very same calls
+trait Recv: ArrayStringManipulate<String> + ArrayStringCompare<String> + ArrayStringIndexing<String> + ArrayStringValidate<String> {}
+impl<T: ArrayStringManipulate<String> + ArrayStringCompare<String> + ArrayStringIndexing<String> + ArrayStringValidate<String>> Recv for T {}
+
+fn cmp_enum(o: &str) -> Option<CompareOp> {
+    Some(match o.to_lowercase().as_str() {
+        "==" | "equals" => CompareOp::Equals, "!=" | "not_equals" => CompareOp::NotEquals, ">" | "greater" => CompareOp::Greater,
+        "<" | "less" => CompareOp::Less, ">=" | "greater_equal" => CompareOp::GreaterEqual, "<=" | "less_equal" => CompareOp::LessEqual,
+        _ => return None,
+    })
+}
+
+/// one call on the receiver `r` (the first argument of the case line is the receiver's array and is NOT re-read here)
+fn run<R: Recv>(r: &R, op: &str, args: &[&str]) -> Option<String> {
+    let sa = |i: usize| -> Option<Array<String>> { p_sarr(args.get(i)?) };
+    macro_rules! two { ($f:ident, $m:path) => {{ let b = sa(1)?; guarded(|| $f(&$m(r, &b))) }} }
+    Some(match op {
+        "add" => two!(f_s, ArrayStringManipulate::add),
+        "join" => two!(f_s, ArrayStringManipulate::join),
+        "partition" => two!(f_t, ArrayStringManipulate::partition),
+        "rpartition" => two!(f_t, ArrayStringManipulate::rpartition),
+        "equal" => two!(f_b, ArrayStringCompare::equal),
+        "not_equal" => two!(f_b, ArrayStringCompare::not_equal),
+        "greater_equal" => two!(f_b, ArrayStringCompare::greater_equal),
+        "less_equal" => two!(f_b, ArrayStringCompare::less_equal),
+        "greater" => two!(f_b, ArrayStringCompare::greater),
+        "less" => two!(f_b, ArrayStringCompare::less),
+        "count" => two!(f_n, ArrayStringIndexing::count),
+        "starts_with" => two!(f_b, ArrayStringIndexing::starts_with),
+        "ends_with" => two!(f_b, ArrayStringIndexing::ends_with),
+        "find" => two!(f_i, ArrayStringIndexing::find),
+        "rfind" => two!(f_i, ArrayStringIndexing::rfind),
+        "index" => two!(f_i, ArrayStringIndexing::index),
+        "rindex" => two!(f_i, ArrayStringIndexing::rindex),
+        "compare" => {
+            // the three spellings of the option: `&str`, `String`, and (for the valid names) the enum
+            let b = sa(1)?; let o = unhex(args.get(2)?)?;
+            let by_str = guarded(|| f_b(&ArrayStringCompare::compare(r, &b, o.as_str())));
+            let by_string = guarded(|| f_b(&ArrayStringCompare::compare(r, &b, o.clone())));
+            if by_string != by_str { return Some(format!("SPELLING-DIVERGENCE String spelling gives `{}`, &str spelling `{}`", truncate(&by_string, 200), truncate(&by_str, 200))); }
+            if let Some(e) = cmp_enum(&o) {
+                let by_enum = guarded(|| f_b(&ArrayStringCompare::compare(r, &b, e)));
+                if by_enum != by_str { return Some(format!("SPELLING-DIVERGENCE enum spelling gives `{}`, &str spelling `{}`", truncate(&by_enum, 200), truncate(&by_str, 200))); }
+            }
+            by_str
+        }
+        "multiply" => { let n = p_narr(args.get(1)?)?; guarded(|| f_s(&ArrayStringManipulate::multiply(r, &n))) }
+        "capitalize" => guarded(|| f_s(&ArrayStringManipulate::capitalize(r))),
+        "lower" => guarded(|| f_s(&ArrayStringManipulate::lower(r))),
+        "upper" => guarded(|| f_s(&ArrayStringManipulate::upper(r))),
+        "swapcase" => guarded(|| f_s(&ArrayStringManipulate::swapcase(r))),
         "center" | "ljust" | "rjust" => {
             let w = p_narr(args.get(1)?)?; let f = p_opt(args.get(2)?, p_carr)?;
-            guarded(|| f_s(&match op { "center" => ArrayStringManipulate::center(&a, &w, f), "ljust" => ArrayStringManipulate::ljust(&a, &w, f), _ => ArrayStringManipulate::rjust(&a, &w, f) }))
+            guarded(|| f_s(&match op { "center" => ArrayStringManipulate::center(r, &w, f), "ljust" => ArrayStringManipulate::ljust(r, &w, f), _ => ArrayStringManipulate::rjust(r, &w, f) }))
         }
-        "zfill" => { let w: usize = args.get(1)?.parse().ok()?; guarded(|| f_s(&ArrayStringManipulate::zfill(&a, w))) }
+        "zfill" => { let w: usize = args.get(1)?.parse().ok()?; guarded(|| f_s(&ArrayStringManipulate::zfill(r, w))) }
         "translate" => {
             let t = args.get(1)?;
             let table: Vec<(char, char)> = if *t == "-" { vec![] } else { t.split(',').map(|x| { let s = unhex(x)?; let mut c = s.chars(); Some((c.next()?, c.next()?)) }).collect::<Option<Vec<_>>>()? };
-            guarded(|| f_s(&ArrayStringManipulate::translate(&a, table)))
+            guarded(|| f_s(&ArrayStringManipulate::translate(r, table)))
         }
         "split" | "rsplit" => {
             let s = p_opt(args.get(1)?, p_sarr)?; let m = p_opt(args.get(2)?, p_narr)?;
-            guarded(|| f_l(&if op == "split" { ArrayStringManipulate::split(&a, s, m) } else { ArrayStringManipulate::rsplit(&a, s, m) }))
+            guarded(|| f_l(&if op == "split" { ArrayStringManipulate::split(r, s, m) } else { ArrayStringManipulate::rsplit(r, s, m) }))
         }
-        "splitlines" => { let k = p_opt(args.get(1)?, p_barr)?; guarded(|| f_l(&ArrayStringManipulate::splitlines(&a, k))) }
+        "splitlines" => { let k = p_opt(args.get(1)?, p_barr)?; guarded(|| f_l(&ArrayStringManipulate::splitlines(r, k))) }
         "replace" => {
-            let o = p_sarr(args.get(1)?)?; let n = p_sarr(args.get(2)?)?; let c: Option<usize> = p_opt(args.get(3)?, |x| x.parse().ok())?;
-            guarded(|| f_s(&ArrayStringManipulate::replace(&a, &o, &n, c)))
+            let o = sa(1)?; let n = sa(2)?; let c: Option<usize> = p_opt(args.get(3)?, |x| x.parse().ok())?;
+            guarded(|| f_s(&ArrayStringManipulate::replace(r, &o, &n, c)))
         }
         "strip" | "lstrip" | "rstrip" => {
             let c = p_opt(args.get(1)?, p_sarr)?;
-            guarded(|| f_s(&match op { "strip" => ArrayStringManipulate::strip(&a, c), "lstrip" => ArrayStringManipulate::lstrip(&a, c), _ => ArrayStringManipulate::rstrip(&a, c) }))
+            guarded(|| f_s(&match op { "strip" => ArrayStringManipulate::strip(r, c), "lstrip" => ArrayStringManipulate::lstrip(r, c), _ => ArrayStringManipulate::rstrip(r, c) }))
         }
-        "str_len" => guarded(|| f_n(&ArrayStringIndexing::str_len(&a))),
-        "is_alpha" => guarded(|| f_b(&ArrayStringValidate::is_alpha(&a))),
-        "is_alnum" => guarded(|| f_b(&ArrayStringValidate::is_alnum(&a))),
-        "is_decimal" => guarded(|| f_b(&ArrayStringValidate::is_decimal(&a))),
-        "is_numeric" => guarded(|| f_b(&ArrayStringValidate::is_numeric(&a))),
-        "is_digit" => guarded(|| f_b(&ArrayStringValidate::is_digit(&a))),
-        "is_space" => guarded(|| f_b(&ArrayStringValidate::is_space(&a))),
-        "is_lower" => guarded(|| f_b(&ArrayStringValidate::is_lower(&a))),
-        "is_upper" => guarded(|| f_b(&ArrayStringValidate::is_upper(&a))),
+        "str_len" => guarded(|| f_n(&ArrayStringIndexing::str_len(r))),
+        "is_alpha" => guarded(|| f_b(&ArrayStringValidate::is_alpha(r))),
+        "is_alnum" => guarded(|| f_b(&ArrayStringValidate::is_alnum(r))),
+        "is_decimal" => guarded(|| f_b(&ArrayStringValidate::is_decimal(r))),
+        "is_numeric" => guarded(|| f_b(&ArrayStringValidate::is_numeric(r))),
+        "is_digit" => guarded(|| f_b(&ArrayStringValidate::is_digit(r))),
+        "is_space" => guarded(|| f_b(&ArrayStringValidate::is_space(r))),
+        "is_lower" => guarded(|| f_b(&ArrayStringValidate::is_lower(r))),
+        "is_upper" => guarded(|| f_b(&ArrayStringValidate::is_upper(r))),
         _ => return None,
-    };
+    })
+}
+
+/// BOTH receivers on every case: the plain `Array<String>` call, the same call on `Ok(array)` through
+/// `impl … for Result<Array<String>, ArrayError>` (must give the same answer), and on an `Err(..)` receiver (must stay an error)
+fn exec(op: &str, args: &[&str], expected: &str) -> Option<Verdict> {
+    let a = p_sarr(args.first()?)?;
+    let plain = run(&a, op, args)?;
+    let ok_recv: Result<Array<String>, ArrayError> = Ok(a.clone());
+    let chained = run(&ok_recv, op, args)?;
+    let err_recv: Result<Array<String>, ArrayError> = Err(ArrayError::NotImplemented);
+    let on_err = run(&err_recv, op, args)?;
+    let observed =
+        if chained != plain { format!("RECEIVER-DIVERGENCE chained call on Ok(array) gives `{}`, plain call `{}`", truncate(&chained, 300), truncate(&plain, 300)) }
+        else if class_of(&on_err) != "err" { format!("RECEIVER-DIVERGENCE the call on an Err(..) receiver gives `{}`", truncate(&on_err, 300)) }
+        else { plain };
     Some(compare_default(observed, expected))
 }
 
@@ -181,7 +221,9 @@ fn pack_scalar(subjects: &[String], out: &mut dyn FnMut(String), line: &dyn Fn(&
 }
 
 const PAIR_OPS: &[&str] = &["add", "join", "partition", "rpartition", "count", "starts_with", "ends_with", "find", "rfind",
-    "equal", "not_equal", "greater_equal", "less_equal", "greater", "less"];
+    "equal", "not_equal", "greater_equal", "less_equal", "greater", "less", "index", "rindex"];
+const STRIP_OPS: &[&str] = &["lstrip", "rstrip", "strip"];
+const PAD_OPS: &[&str] = &["center", "ljust", "rjust"];
 const UNARY_OPS: &[&str] = &["capitalize", "lower", "upper", "swapcase", "str_len", "is_alpha", "is_alnum", "is_decimal", "is_numeric",
     "is_digit", "is_space", "is_lower", "is_upper"];
 
@@ -398,6 +440,8 @@ fn gen(tier: &str, seed: u64, out: &mut dyn FnMut(String)) {
         for op in ["center", "ljust", "rjust"] { out(format!("{op} {a2} 3:1,2,3 none")); out(format!("{op} {a2} 2:1,2 3:2a,2a,2a")); }
     }
 
+    robust(thorough, seed, out, &mut late);
+
     // ---- replace, last (on the pinned tree some of these never return): alphabet {a,b,-}
     {
         let subj = strings_upto(&SMALL, if thorough { 4 } else { 3 });
@@ -413,6 +457,217 @@ fn gen(tier: &str, seed: u64, out: &mut dyn FnMut(String)) {
             } } }
             for (k, c) in counts.iter().enumerate() { pack(&[s.clone(), o.clone(), n.clone()], k, out, &|a| format!("replace {} {} {} {c}", a[0], a[1], a[2])); }
             if !risky { for old in ["a", "ab", "-"] { pack_scalar(&subj.iter().map(|x| hex(x)).collect::<Vec<_>>(), out, &|a| format!("replace {a} 1:{} 1:{} none", hex(old), hex("b-"))); } }
+        }
+    }
+}
+
+// ------------------------------------------------------------------ robustness streams (FRAMEWORK.md)
+
+/// wire form of an array of the given shape whose element at flat position k is `f(k)` (already in wire form)
+fn warr(shape: &[usize], f: impl Fn(usize) -> String) -> String {
+    let n: usize = shape.iter().product();
+    format!("{}:{}", show_list(shape), if n == 0 { "-".to_string() } else { (0..n).map(f).collect::<Vec<_>>().join(",") })
+}
+
+/// short strings with borders ("aa" in "aaa", "aba" in "ababa", "--" in "a---b"), blanks, case, digits, separators, line breaks
+const POOL: &[&str] = &["aaa", "ababa", "a---b", "", "aa", " a b ", "Ab1", "x\ny", "b-b-b", "a,b", "-", "aba", "--", "aaaa", "0", " ", "B", "-a-", "ab\r\nc", "a-", "baab", "-5", "12", "a  ", "abab", "Z9z"];
+const PATS: &[&str] = &["aa", "aba", "--", "a", "-", "", "b", "ab", " ", "aaa", "\n", "-b", "a-", "A", "ba"];
+const NUMS: &[&str] = &["5", "-5", "12", "-0", "007", "1e5", "-1.5", ".5", "33", "-120"];
+
+fn subj(k: usize) -> String { let base = POOL[(k * 7 + k / 5) % POOL.len()]; match k % 4 { 0 => base.to_string(), 1 => format!("{base}a"), 2 => format!("-{base}"), _ => format!("{base}{}", k % 10) } }
+fn pat(k: usize) -> String { PATS[(k * 5 + k / 3) % PATS.len()].to_string() }
+fn fill(k: usize) -> String { hex(["*", "#", " ", "0", "-"][(k + k / 4) % 5]) }
+
+/// partner shapes of `s` under broadcasting: the same shape, `[1]`, the trailing axis alone, a unit leading axis, a unit trailing axis
+fn partners(s: &[usize]) -> Vec<Vec<usize>> {
+    let mut v = vec![s.to_vec(), vec![1]];
+    if s.len() >= 2 {
+        v.push(s[s.len() - 1..].to_vec());
+        let mut t = s.to_vec(); t[0] = 1; v.push(t);
+        let mut t = s.to_vec(); *t.last_mut().unwrap() = 1; v.push(t);
+    }
+    v
+}
+
+/// long strings (up to a few hundred bytes) in which the patterns overlap themselves
+fn long_subjects() -> Vec<String> {
+    vec!["a".repeat(257), "a".repeat(300), format!("{}a", "ab".repeat(150)), "aba".repeat(100), "-".repeat(301), format!("{}-", "a--".repeat(90)),
+         "word ".repeat(52), format!("x{}", "aa".repeat(128)), "line\n".repeat(60), "l1\r\nl2\rl3\n".repeat(30), format!("{}b", "a".repeat(256)), format!("b{}", "a".repeat(256)),
+         format!("{}{}", " ".repeat(130), "a".repeat(130)), format!("{}{}", "ab".repeat(70), " ".repeat(140)), "Ab1 ".repeat(64), format!("{}ababa{}", "-".repeat(128), "-".repeat(128)),
+         "aaa".to_string(), "ababa".to_string(), "a---b".to_string(), "aaaaa".to_string(), "abababa".to_string(), String::new(), "0".repeat(260), format!("-{}", "7".repeat(258))]
+}
+fn long_patterns() -> Vec<String> {
+    vec!["aa".into(), "aba".into(), "--".into(), "a".into(), "aaa".into(), "ab".repeat(20), "a".repeat(100), "".into(), " ".into(), "---".into(), "abab".into(), "\n".into(), "\r\n".into(),
+         "a".repeat(256), "a".repeat(257), "ba".into(), "d ".into(), "b".into(), "1 A".into(), "-a".into()]
+}
+
+fn robust(thorough: bool, seed: u64, out: &mut dyn FnMut(String), late: &mut Vec<String>) {
+    let hs = |k: usize| hex(&subj(k));
+    let hp = |k: usize| hex(&pat(k));
+    // ---- (1) sizes: axis lengths 7..17 in every position, element counts > 256 / 1024 / 4096, every operation
+    for s in big_shapes() {
+        let n: usize = s.iter().product();
+        // quick tier: on the four shapes above 700 elements a rotating share of the operations (every lifting path of the model is hit on each of them;
+        // the model's index loops are quadratic); the thorough tier runs every operation on every shape
+        let huge = n > 700 && !thorough;
+        let a = warr(&s, hs);
+        for (j, op) in UNARY_OPS.iter().enumerate() { if !huge || j % 4 == n % 4 { out(format!("{op} {a}")); } }
+        out(format!("splitlines {a} none"));
+        out(format!("translate {a} 6162,2d2b,4161"));
+        out(format!("zfill {} {}", warr(&s, |k| hex(NUMS[(k + k / 7) % NUMS.len()])), 3 + n % 5));
+        for (pi, ps) in partners(&s).iter().enumerate() {
+            if huge && pi > 1 && !thorough { continue; }
+            let b = warr(ps, |k| hp(k + pi));
+            let nums = warr(ps, |k| ((k * 3 + pi) % 7).to_string());
+            for (j, op) in PAIR_OPS.iter().chain(STRIP_OPS.iter()).enumerate() { if !huge || (j + pi) % 5 == n % 5 { out(format!("{op} {a} {b}")); } }
+            out(format!("multiply {a} {}", warr(ps, |k| ((k + pi) % 4).to_string())));
+            out(format!("splitlines {a} {}", warr(ps, |k| ((k / 2 + pi) % 2).to_string())));
+            for (j, op) in PAD_OPS.iter().enumerate() {
+                if huge && (j + pi) % 3 != n % 3 { continue; }
+                out(format!("{op} {a} {} none", warr(ps, |k| ((k * 5 + pi) % 9).to_string())));
+                out(format!("{op} {a} 1:6 {}", warr(ps, fill)));
+                out(format!("{op} {a} {} {}", warr(ps, |k| ((k * 5 + pi) % 9).to_string()), warr(&s, fill)));
+            }
+            for (j, op) in ["split", "rsplit"].iter().enumerate() {
+                if huge && (j + pi) % 2 != n % 2 { continue; }
+                out(format!("{op} {a} {b} none"));
+                out(format!("{op} {a} {b} {nums}"));
+                out(format!("{op} {a} none {nums}"));
+            }
+            if !huge || pi == 0 {
+                late.push(format!("replace {a} {b} {} none", warr(&s, |k| hex(["+", "", "xy", "-"][k % 4]))));
+                late.push(format!("replace {a} 1:{} {b} 1", hex("a")));
+            }
+        }
+    }
+    // ---- (2) zero-length axes: every operation; operands of the same empty shape, `[1]`, and a non-empty partner
+    for z in zero_shapes() {
+        let a = warr(&z, hs);
+        let others: Vec<String> = vec![a.clone(), format!("1:{}", hex("a")), format!("2:{},{}", hex("a"), hex("-"))];
+        for op in UNARY_OPS { out(format!("{op} {a}")); }
+        out(format!("splitlines {a} none")); out(format!("splitlines {a} 1:1")); out(format!("splitlines {a} {}", warr(&z, |_| "1".into())));
+        out(format!("translate {a} 6162")); out(format!("translate {a} -"));
+        out(format!("zfill {a} 4")); out(format!("zfill {a} 0"));
+        for op in PAD_OPS {
+            out(format!("{op} {a} 1:3 none")); out(format!("{op} {a} {} none", warr(&z, |_| "3".into())));
+            out(format!("{op} {a} 1:3 {}", warr(&z, |_| "2a".into()))); out(format!("{op} {a} 1:3 1:2a"));
+            out(format!("{op} 1:{} {} none", hex("ab"), warr(&z, |_| "3".into())));
+            out(format!("{op} 1:{} 1:4 {}", hex("ab"), warr(&z, |_| "2a".into())));
+        }
+        out(format!("multiply {a} 1:2")); out(format!("multiply {a} {}", warr(&z, |_| "2".into()))); out(format!("multiply 1:{} {}", hex("ab"), warr(&z, |_| "2".into())));
+        for b in &others {
+            for op in PAIR_OPS.iter().chain(STRIP_OPS.iter()) { out(format!("{op} {a} {b}")); if *b != a { out(format!("{op} {b} {a}")); } }
+            for op in ["split", "rsplit"] {
+                out(format!("{op} {a} {b} none")); out(format!("{op} {a} {b} 1:2")); out(format!("{op} {a} {b} {}", warr(&z, |_| "2".into())));
+                out(format!("{op} {b} {a} none")); out(format!("{op} {b} none {}", warr(&z, |_| "2".into())));
+            }
+            late.push(format!("replace {a} {b} {b} none")); late.push(format!("replace {b} {a} {b} 1")); late.push(format!("replace {b} {b} {a} none"));
+        }
+        for op in STRIP_OPS { out(format!("{op} {a} none")); }
+        for op in ["split", "rsplit"] { out(format!("{op} {a} none none")); }
+        for o in ["==", "less", "bogus"] { out(format!("compare {a} {a} {}", hex(o))); out(format!("compare {a} 1:{} {}", hex("a"), hex(o))); }
+    }
+    // ---- (3) value classes: long strings (257..300 bytes) with self-overlapping patterns, widths / counts above 255
+    {
+        let subs = long_subjects();
+        let pats = long_patterns();
+        // every (long subject, pattern) pair; packed so that both vary inside one array, rank 1 and 2
+        let (mut cs, mut cp) = (vec![], vec![]);
+        for x in &subs { for y in &pats { cs.push(hex(x)); cp.push(hex(y)); } }
+        let chunk = 12usize;
+        for (ci, i) in (0..cs.len()).step_by(chunk).enumerate() {
+            let m = chunk.min(cs.len() - i);
+            let shape: Vec<usize> = if m == 12 && ci % 2 == 0 { vec![3, 4] } else { vec![m] };
+            let a = warr(&shape, |k| cs[i + k].clone());
+            let b = warr(&shape, |k| cp[i + k].clone());
+            for op in PAIR_OPS.iter().chain(STRIP_OPS.iter()) { out(format!("{op} {a} {b}")); }
+            for op in ["split", "rsplit"] {
+                out(format!("{op} {a} {b} none"));
+                out(format!("{op} {a} {b} {}", warr(&shape, |k| [0usize, 1, 2, 3, 100, 300, 129][(k + ci) % 7].to_string())));
+            }
+            for c in ["none", "0", "1", "2", "7", "300"] { late.push(format!("replace {a} {b} {} {c}", warr(&shape, |k| hex(["+", "", "xy", "a", "aa", "-a-"][(k + ci) % 6])))); }
+        }
+        // each long subject as the whole array against one scalar-like pattern (the `[1]` path), and the other way round
+        let all = warr(&[subs.len()], |k| hex(&subs[k]));
+        for y in &pats {
+            let b = format!("1:{}", hex(y));
+            for op in ["find", "rfind", "index", "rindex", "count", "partition", "rpartition"] { out(format!("{op} {all} {b}")); }
+            for op in ["split", "rsplit"] { out(format!("{op} {all} {b} none")); out(format!("{op} {all} {b} 1:2")); out(format!("{op} {all} {b} 1:3")); }
+            late.push(format!("replace {all} {b} 1:{} none", hex("+")));
+            late.push(format!("replace {all} {b} 1:{} 2", hex("ab")));
+        }
+        for op in UNARY_OPS { out(format!("{op} {all}")); }
+        out(format!("splitlines {all} none")); out(format!("splitlines {all} 1:1"));
+        out(format!("translate {all} 6162,2d2b,4161,0a7c"));
+        for w in [0usize, 3, 255, 256, 257, 300, 301, 302, 700, 1000] {
+            for op in PAD_OPS { out(format!("{op} {all} 1:{w} none")); out(format!("{op} {all} 1:{w} 1:2a")); }
+        }
+        for c in [0usize, 1, 2, 17, 256, 300] { out(format!("multiply {all} 1:{c}")); out(format!("multiply {} 1:{c}", warr(&[POOL.len()], |k| hex(POOL[k])))); }
+        let nums = warr(&[6], |k| hex(&["0".repeat(260), format!("-{}", "7".repeat(258)), "5".into(), "-5".into(), "1e5".into(), "12".repeat(64)][k]));
+        for w in [0usize, 1, 100, 255, 256, 257, 260, 261, 300, 600] { out(format!("zfill {nums} {w}")); }
+        // comparisons that are decided beyond byte 256, and by trailing blanks / line breaks beyond it
+        let base = "ab".repeat(140);
+        let vars: Vec<String> = vec![base.clone(), format!("{base} "), format!("{base}{}", " ".repeat(260)), format!("{base}a"), format!("{base}\n"), format!("{base} \n"), format!("{}c{}", &base[..270], &base[271..]),
+            format!("{}A{}", &base[..256], &base[257..]), format!("{base}\t"), format!(" {base}"), base[..279].to_string(), " ".repeat(300), String::new(), "\n".to_string()];
+        let (mut l, mut r) = (vec![], vec![]);
+        for x in &vars { for y in &vars { l.push(hex(x)); r.push(hex(y)); } }
+        for (ci, i) in (0..l.len()).step_by(14).enumerate() {
+            let m = 14.min(l.len() - i);
+            let shape: Vec<usize> = if m == 14 && ci % 2 == 1 { vec![2, 7] } else { vec![m] };
+            let (a, b) = (warr(&shape, |k| l[i + k].clone()), warr(&shape, |k| r[i + k].clone()));
+            for op in ["equal", "not_equal", "greater_equal", "less_equal", "greater", "less", "starts_with", "ends_with", "add"] { out(format!("{op} {a} {b}")); }
+            out(format!("compare {a} {b} {}", hex(["==", "!=", ">", "<", ">=", "<=", "EQUALS", "Less_Equal"][ci % 8])));
+        }
+        // short strings differing only in trailing white space other than blanks
+        let tails = ["", " ", "\n", "\t", "\r\n", " \n", "\n ", "  ", "\r", "\x0b", "\x0c"];
+        let (mut l, mut r) = (vec![], vec![]);
+        for x in tails { for y in tails { for stem in ["ab", ""] { l.push(hex(&format!("{stem}{x}"))); r.push(hex(&format!("{stem}{y}"))); } } }
+        pack(&[l.clone(), r.clone()], 3, out, &|a| format!("equal {} {}", a[0], a[1]));
+        for (k, op) in ["not_equal", "greater_equal", "less_equal", "greater", "less"].iter().enumerate() { pack(&[l.clone(), r.clone()], k, out, &|a| format!("{op} {} {}", a[0], a[1])); }
+    }
+    // ---- (5) argument combinations: every pair / triple of argument shapes out of a set that needs a real two-sided stretch
+    //      ([3] with [2,1], [1,2] with [2,1], …), for EVERY argument position of every multi-argument operation; values differ per position
+    {
+        let set: &[&[usize]] = &[&[1], &[2], &[3], &[2, 1], &[1, 2], &[1, 3], &[2, 3], &[2, 1, 1], &[1, 1, 3], &[2, 2]];
+        let sarr = |s: &[usize], off: usize| warr(s, |k| hex(&subj(k + off)));
+        let parr = |s: &[usize], off: usize| warr(s, |k| hex(&pat(k + off)));
+        let narr = |s: &[usize], off: usize, m: usize| warr(s, |k| ((k * 2 + off) % m).to_string());
+        for (i, sa) in set.iter().enumerate() { for (j, sb) in set.iter().enumerate() {
+            let (a, b) = (sarr(sa, i), parr(sb, j));
+            for op in PAIR_OPS.iter().chain(STRIP_OPS.iter()) { out(format!("{op} {a} {b}")); }
+            out(format!("multiply {a} {}", narr(sb, j, 4)));
+            out(format!("splitlines {a} {}", narr(sb, j, 2)));
+            out(format!("compare {a} {b} {}", hex(["<", ">=", "not_equals"][(i + j) % 3])));
+            for op in ["split", "rsplit"] { out(format!("{op} {a} {b} none")); out(format!("{op} {a} none {}", narr(sb, j, 4))); }
+            for op in PAD_OPS { out(format!("{op} {a} {} none", narr(sb, j, 8))); out(format!("{op} {a} 1:5 {}", warr(sb, |k| fill(k + j)))); }
+            for (l, sc) in set.iter().enumerate() {
+                if !thorough && (i + 2 * j + 3 * l) % 2 == 1 && sa.len() + sb.len() + sc.len() > 4 { continue; }
+                for op in PAD_OPS { out(format!("{op} {a} {} {}", narr(sb, j, 8), warr(sc, |k| fill(k + l)))); }
+                for op in ["split", "rsplit"] { out(format!("{op} {a} {b} {}", narr(sc, l, 4))); }
+                let c = warr(sc, |k| hex(["+", "", "xy", "aa"][(k + l) % 4]));
+                late.push(format!("replace {a} {b} {c} {}", ["none", "1", "2", "0"][(i + j + l) % 4]));
+            }
+        } }
+    }
+    // ---- seeded: random big / odd shapes (axis lengths 5..17, rank 1..4) with a random partner shape, random operation
+    {
+        let mut rng = Rng::new(seed ^ 0x17_17);
+        for _ in 0..(if thorough { 400 } else { 60 }) {
+            let r = 1 + rng.below(3);
+            let s: Vec<usize> = (0..r).map(|_| if rng.below(4) == 0 { 1 } else { 2 + rng.below(if r == 1 { 400 } else { 16 }) }).collect();
+            let ps = partners(&s);
+            let p = rng.pick(&ps).clone();
+            let off = rng.below(100);
+            let a = warr(&s, |k| hs(k + off)); let b = warr(&p, |k| hp(k + off));
+            let swap = rng.below(3) == 0;
+            let (x, y) = if swap { (&b, &a) } else { (&a, &b) };
+            out(format!("{} {x} {y}", rng.pick(PAIR_OPS)));
+            out(format!("{} {x} {y}", rng.pick(STRIP_OPS)));
+            out(format!("{} {x} {y} {}", rng.pick(&["split", "rsplit"]), if rng.below(2) == 0 { "none".to_string() } else { warr(&p, |k| ((k + off) % 5).to_string()) }));
+            out(format!("{} {a} {} {}", rng.pick(PAD_OPS), warr(&p, |k| ((k + off) % 11).to_string()), if rng.below(2) == 0 { "none".to_string() } else { warr(&ps[rng.below(ps.len())], fill) }));
+            out(format!("{} {a}", rng.pick(UNARY_OPS)));
+            out(format!("multiply {a} {}", warr(&p, |k| ((k + off) % 4).to_string())));
+            late.push(format!("replace {a} {b} {} {}", warr(&ps[rng.below(ps.len())], |k| hex(["+", "", "xy"][k % 3])), rng.pick(&["none", "1", "3"])));
         }
     }
 }
